@@ -7,6 +7,7 @@ import (
 	"reflect"
 	"sort"
 	"strings"
+	"time"
 
 	"github.com/evolbioinfo/gotree/mcrt"
 	"github.com/spf13/cobra"
@@ -292,6 +293,25 @@ func init() {
 					c.Check(c19case{Kind: "flagset", Flag: &c19flag{Cmd: path}}, func() (string, string) {
 						if msg, bad := cliFlagPanics[path]; bad {
 							return "C19/registration-conflict/" + path, fmt.Sprintf("the options of `%s` cannot be combined with the persistent options registered by its parents: %s (every invocation of the command panics)", path, msg)
+						}
+						return "", ""
+					})
+				}
+			}
+			// the documented default of --seed is the clock in NANOseconds: two runs started a nanosecond apart, inside the
+			// same second, draw different random numbers (a generator with continuous output shows it with certainty)
+			if c.Shard == 0 {
+				for _, e := range cliTable() {
+					if e.Name != "generate-yuletree-noseed" {
+						continue
+					}
+					e := e
+					c.Count("default_seed_granularity_checked", 1)
+					c.Check(c19case{Kind: "seed-granularity", E2E: &c19e2e{Name: e.Name, Flag: "seed"}}, func() (string, string) {
+						a, _ := cliExec(mcrt.Config{MapMode: mcrt.MapSorted}, e.Args, e.Stdin, e.Files, e.Out)
+						b, _ := cliExec(mcrt.Config{MapMode: mcrt.MapSorted, ClockShift: -time.Nanosecond}, e.Args, e.Stdin, e.Files, e.Out)
+						if a.Stdout == b.Stdout && a.Stdout != "" {
+							return "C19/default-seed-granularity", fmt.Sprintf("`gotree %s` run at T0 and at T0-1ns (same second) writes the same random tree %q: the seed in force when --seed is left out is not the documented nanosecond clock", strings.Join(e.Args, " "), a.Stdout)
 						}
 						return "", ""
 					})
